@@ -147,7 +147,7 @@ Proof.
   - closed_bc K H.
   - closed_bc K H.
   - (* ETimer *)
-    destruct (nth_error (c_timers C) t) as [[i h|i|p a]|]; [| | |injection H as <- <-; split; [exact K | reflexivity]].
+    destruct (nth_error (c_timers C) t) as [[i h|i|p a|p]|]; [| | | |injection H as <- <-; split; [exact K | reflexivity]].
     + unfold creq_at in H. destruct (nth_error (c_bcs C) i) as [b|] eqn:Eb; [|injection H as <- <-; split; [exact K | reflexivity]].
       destruct (nth_error (b_reqs b) h) as [[ow [t'|] to]|] eqn:Eq; try (injection H as <- <-; split; [exact K | reflexivity]).
       exfalso. destruct (TInvC_bc _ _ _ _ T Eb) as (I & L & A & _). destruct (A h _ t' Eq eq_refl) as [_ [X|[]]].
@@ -157,6 +157,7 @@ Proof.
       match type of H with ev_bc ?C0 ?i0 ?e0 = _ => refine (ev_bc_closed C0 i0 e0 C' o _ eq_refl H) end.
       constructor; [exact Cc | eapply TInvC_same_core; [exact T | apply upd_bc_core; intros; reflexivity] | | exact Dn | exact Tp].
       apply (same_core_down C); [apply upd_bc_core; intros; reflexivity | exact D].
+    + rewrite (phase_done C p Dn) in H. injection H as <- <-. split; [exact K | reflexivity].
     + rewrite (phase_done C p Dn) in H. injection H as <- <-. split; [exact K | reflexivity].
   - (* EBootOk *)
     destruct (nth_error (c_boots C) a) as [[[p rid] [| |]]|]; try (injection H as <- <-; split; [exact K | reflexivity]).
